@@ -388,6 +388,32 @@ def sha(b: bytes) -> str:
     return hashlib.sha1(b).hexdigest()[:16]
 
 
+VOLATILE_CARDS = ("DATE", "CHECKSUM", "DATASUM", "HISTORY", "COMMENT", "")
+
+
+def fits_content(data: bytes):
+    """
+    What a FITS file CONTAINS, independent of when it was written: per HDU its kind, data dtype/shape/bytes and its header cards
+    except volatile ones (DATE*, CHECKSUM, DATASUM, HISTORY, COMMENT).  Used for "the new content fully replaces the old": a
+    maintainer adding a creation-date card must not turn the byte comparison into a once-per-second-boundary false alarm.
+    Falls back to the raw bytes when the file cannot be parsed.
+    """
+    import io
+
+    from astropy.io import fits
+
+    try:
+        out = []
+        with fits.open(io.BytesIO(data), memmap=False) as hl:
+            for h in hl:
+                d = h.data
+                cards = tuple(sorted((k, repr(v)) for k, v in h.header.items() if not any(k.startswith(p) and (p or k == "") for p in VOLATILE_CARDS)))
+                out.append((type(h).__name__, None if d is None else (str(d.dtype), tuple(d.shape), sha(np.ascontiguousarray(d).tobytes())), cards))
+        return ("fits", tuple(out))
+    except Exception:  # noqa: BLE001
+        return ("raw", sha(data))
+
+
 class FitsSim:
     def __init__(self, run_seed, case, cfg, known):
         self.run_seed = run_seed
@@ -920,7 +946,7 @@ class FitsSim:
             if pre == "indet":
                 self.probe("recovery_after_fault")
         ref = self.reference_bytes(lib_obj)
-        if ref is not None and ref != post_bytes:
+        if ref is not None and ref != post_bytes and fits_content(ref) != fits_content(post_bytes):
             self.report(
                 "overwrite_not_replaced" if exists else "write_depends_on_state",
                 cls_name,
@@ -1025,7 +1051,7 @@ class FitsSim:
                 self.report("wrong_location", "Imaging", "file", cond, "file at " + p, "no file there", step)
                 continue
             ref = self.reference_bytes(None, is_imaging_part=part)
-            if ref is not None and ref != post[p]:
+            if ref is not None and ref != post[p] and fits_content(ref) != fits_content(post[p]):
                 self.report("overwrite_not_replaced" if pre[p] is not None else "write_depends_on_state", "Imaging", "file bytes", cond, sha(ref), sha(post[p]), step)
             self.model[p] = {
                 "kind": "det",
@@ -1145,13 +1171,16 @@ class FitsSim:
         if hdr is not None and st["cls"] in ("Array2D", "Kernel2D", "Array1D", "Mask2D", "Mask1D"):
             self.stats["checked"] += 1
             try:
-                if "PIXSCALE" in hdr:
-                    hps = (float(hdr["PIXSCALE"]),) * len(st["ps"])
-                else:
-                    hps = (float(hdr["PIXSCALEY"]), float(hdr["PIXSCALEX"]))
-                hshape = tuple(int(hdr[f"NAXIS{i}"]) for i in range(int(hdr["NAXIS"]), 0, -1))
+                # behavioural, not by key name: the library's own header reader (from_primary_hdu) applied to the header the
+                # returned object carries - a consistent rename of the header card by a maintainer is not a violation
+                from astropy.io import fits as _fits
+
+                data_for_hdr = np.zeros(tuple(int(hdr[f"NAXIS{i}"]) for i in range(int(hdr["NAXIS"]), 0, -1)))
+                back = getattr(aa, st["cls"]).from_primary_hdu(primary_hdu=_fits.PrimaryHDU(data_for_hdr, header=hdr.copy()))
+                hps = tuple(float(x) for x in back.pixel_scales)
+                hshape = tuple(data_for_hdr.shape)
             except Exception as e:  # noqa: BLE001
-                hps, hshape = "missing: " + type(e).__name__, None
+                hps, hshape = "unreadable: " + type(e).__name__ + " " + str(e)[:60], None
             hc = dict(cond, route="file.header")
             if hps != tuple(st["ps"]):
                 self.report("pixel_scale_header_mismatch", reader, "header pixel scale", hc, repr(tuple(st["ps"])), repr(hps), step)
